@@ -182,7 +182,9 @@ def r3(ctx: Ctx) -> None:
                     # handed over later -- another way of settling, which this rule does not follow
                     others = [x for x in rest if x.kind == "call" and not calls_target(x, UPD) and x.name not in ("len", "executed_order", "isinstance") and not x.name.startswith("_trigger_event")
                               and any(a == e.term for a in list(x.args) + [v for _, v in x.kwargs])]
-                    batched = [u for u in upd if kw(u, "execution_logs", 0) is not None and kw(u, "execution_logs", 0) != e.term and strip_ver(kw(u, "execution_logs", 0))[0] == "sym"]
+                    fed = {key(strip_ver(x.recv)) for x in rest if x.kind == "call" and x.name in ("extend", "append") and x.recv is not None and any(a == e.term for a in x.args)}
+                    batched = [u for u in upd if kw(u, "execution_logs", 0) is not None and kw(u, "execution_logs", 0) != e.term and strip_ver(kw(u, "execution_logs", 0))[0] == "sym"
+                               and (key(strip_ver(kw(u, "execution_logs", 0))) in fed or any(key(strip_ver(kw(u, "execution_logs", 0))).split(":")[-1] == k_.split(":")[-1] for k_ in fed))]
                     folded = [x.data.get("target", "") for x in rest if x.kind == "note" and x.data.get("what") == "inline" and x.data.get("target", "").startswith("Simulator.") and x.data.get("target") != UPD]
                     if folded and not others:
                         class _F:  # noqa: N801
